@@ -190,6 +190,10 @@ def r6(ctx, rep):
                 sch = ctx.ex.extract(rc)
                 rep.consult(m.floc(sch.fn))
                 rs[frames.rule_clause(sch, b)] = rc
+                for p_ in sch.problems:
+                    key_, msg_ = p_.split('|', 1)
+                    rep.instance(R, ok=False, nontrivial=(lg.name, rc.name, key_))
+                    rep.finding(R, f'C04.R6/{lg.name}/{rc.name}/skipped/{key_}', m.floc(sch.fn), f'{lg.name}:{rc.short}', f'frame rule {rc.name} of {lg.name}: {msg_}')
         if not lg.modal:
             ok = not rs
             rep.instance(R, ok=ok, nontrivial=(lg.name, 'nonmodal'))
